@@ -64,6 +64,8 @@ def run(ctx):
     proof_ok = vlib.standard_proof_part(ctx, "props/C02.v", extra_targets=["run/RunManager.vo"])
     cases = [fan_case(3, 3), fan_case(6, 2), cyc_case(3), cyc_case(6)]
     cases += [mc.gen_history(ctx.rng, ["mixed", "dag", "assign", "windows"][i % 4]) for i in range(ctx.pick(240, 4000))]
+    # value types outside the model's domain (floats, numpy arrays, strings, None, ...): trace oracle only
+    cases += [mc.gen_history(ctx.rng, ["mixed", "assign"][i % 2], values="mixed") for i in range(ctx.pick(60, 1000))]
     obs = mc.run_impl_cases(cases)
     mism = mc.model_compare(ctx, cases, obs, "c02")
     fails = oracle(cases, obs)
